@@ -23,7 +23,9 @@ Translated:   thread_local.py  thread_local_value_scope, thread_local_arg_scope,
               flags.py         every `return thread_local.thread_local_value_scope(KEY, arg, INITIAL)` and its getter
               formatting.py    str_format / repr_format (instances of thread_local_arg_scope)
 Checked by fingerprint (modelled by hand in ScopesBase.v): thread_local_has/get/set/del/map/push/peek/pop.
-Key only (hand-written manager in Model/Scopes.v): class_detour.py.
+              class_detour.py  _DetourContext.current_mappings / enter_scope / leave_scope (sequences of pairs, `in`, item loads,
+                               `self.<lazily created thread-local list>`, bookkeeping blocks on `_original_new` skipped)
+Pinned by fingerprint only: _DetourContext._detour_stack (the lazily created list) and the shape of detour().
 """
 import ast
 import hashlib
@@ -163,6 +165,10 @@ class Fn:
     self.notes = []
     self.inline_count = 0
     self.vararg_dict = None      # (*param, exact dict-comprehension dump) treated as one dict parameter
+    self.tls_list_attrs = {}     # self.<property> that is a lazily created list kept in a threading.local -> key ident
+    self.property_getters = {}   # self.<property> -> Coq name of the translated getter
+    self.ignored_attrs = set()   # self.<attr> holding process-wide bookkeeping that is not a setting: blocks guarded by it are skipped
+    self.pair_lists = set()      # parameters / locals that are sequences of pairs
     self.self_attrs = dict(self_attrs or {})      # attribute name -> initial Gallina value (class based managers)
     self.ignorable = set(ignorable_methods)
     a = fn.args
@@ -257,6 +263,17 @@ class Fn:
       self.err(node, 'unsupported constant %r' % (node.value,))
     if isinstance(node, ast.Dict) and not node.keys:
       return 'v_empty_dict'
+    if isinstance(node, ast.Attribute) and isinstance(node.value, ast.Name) and node.value.id == 'self':
+      if node.attr in self.tls_list_attrs:
+        return '(tl_get %s v_none st)' % self.tls_list_attrs[node.attr]
+      if node.attr in self.property_getters:
+        return '(%s st)' % self.property_getters[node.attr]
+    if isinstance(node, ast.List) and not node.elts:
+      return 'v_empty_dict'                      # an empty sequence of pairs
+    if isinstance(node, ast.Call) and isinstance(node.func, ast.Name) and node.func.id == 'dict' and not node.args and not node.keywords:
+      return 'v_empty_dict'
+    if isinstance(node, ast.Subscript) and isinstance(node.value, ast.Name) and isinstance(node.slice, ast.Name) and isinstance(node.ctx, ast.Load):
+      return '(py_dict_get %s %s v_none)' % (self.E(node.value, env), self.E(node.slice, env))
     g = self.global_ref(node)
     if g is not None:
       if not self.use_global:
@@ -334,6 +351,9 @@ class Fn:
         return '(negb (is_none %s))' % self.E(node.left, env)
     if isinstance(node, ast.UnaryOp) and isinstance(node.op, ast.Not):
       return '(negb %s)' % self.C(node.operand, env)
+    if isinstance(node, ast.Compare) and len(node.ops) == 1 and isinstance(node.ops[0], (ast.In, ast.NotIn)):
+      c = '(py_contains %s %s)' % (self.E(node.comparators[0], env), self.E(node.left, env))
+      return c if isinstance(node.ops[0], ast.In) else '(negb %s)' % c
     if isinstance(node, ast.BoolOp):
       op = ' && ' if isinstance(node.op, ast.And) else ' || '
       return '(' + op.join(self.C(v, env) for v in node.values) + ')'
@@ -374,9 +394,22 @@ class Fn:
       if names <= set(self.params) | {'callable', 'isinstance'}:
         self.notes.append('argument validation `if %s: raise` not modelled' % ast.unparse(s.test))
         return self.S(rest, env, k, ind)
+    if isinstance(s, ast.If) and any(isinstance(n, ast.Attribute) and isinstance(n.value, ast.Name) and n.value.id == 'self' and n.attr in self.ignored_attrs
+                                      for n in ast.walk(s.test)):
+      # bookkeeping that is not a setting (e.g. remembering the original __new__ of a detoured class): the block may not touch anything modelled
+      for n in ast.walk(ast.Module(body=list(s.body) + list(s.orelse), type_ignores=[])):
+        if isinstance(n, ast.Call) and (self.prim(n) or self.tls_call(n, 'setattr', 3)):
+          self.err(n, 'thread-local access inside a bookkeeping block')
+        if isinstance(n, ast.Attribute) and isinstance(n.value, ast.Name) and n.value.id == 'self' and n.attr not in self.ignored_attrs:
+          self.err(n, 'bookkeeping block touches self.%s' % n.attr)
+        if isinstance(n, ast.Name) and isinstance(n.ctx, ast.Store):
+          self.err(n, 'bookkeeping block assigns a local')
+      self.notes.append('bookkeeping block `if %s:` not modelled' % ast.unparse(s.test))
+      return self.S(rest, env, k, ind)
     if isinstance(s, ast.Assert):
       if self.phase != 'enter':
-        self.err(s, 'assert on the exit path (leaving the scope could fail)')
+        # leaving would raise and change nothing
+        return '%sif %s then\n%s\n%selse %s' % (pad, self.C(s.test, env), self.S(rest, env, k, ind + 1), pad, '(st, gst)' if self.use_global else 'st')
       return '%sif %s then\n%s\n%selse None' % (pad, self.C(s.test, env), self.S(rest, env, k, ind + 1), pad)
     # a local that only names a key
     if isinstance(s, ast.Assign) and len(s.targets) == 1 and isinstance(s.targets[0], ast.Name):
@@ -407,6 +440,24 @@ class Fn:
         if f.attr == 'pop' and not c.keywords and (not c.args or ast.dump(c.args[0]) == 'UnaryOp(op=USub(), operand=Constant(value=1))'):
           return '%slet gst := tl_pop %s gst in\n%s' % (pad, g, self.S(rest, env, k, ind))
         self.err(s, 'unsupported call on a process-wide list')
+      # self.<thread-local list>.append(x) / .pop(-1)
+      if isinstance(f, ast.Attribute) and isinstance(f.value, ast.Attribute) and isinstance(f.value.value, ast.Name) \
+          and f.value.value.id == 'self' and f.value.attr in self.tls_list_attrs and f.attr in ('append', 'pop'):
+        kk = self.tls_list_attrs[f.value.attr]
+        self.touched = True
+        if f.attr == 'append' and len(c.args) == 1 and not c.keywords:
+          return '%slet st := tl_push %s %s st in\n%s' % (pad, kk, self.E(c.args[0], env), self.S(rest, env, k, ind))
+        if f.attr == 'pop' and not c.keywords and (not c.args or ast.dump(c.args[0]) == 'UnaryOp(op=USub(), operand=Constant(value=1))'):
+          return '%slet st := tl_pop %s st in\n%s' % (pad, kk, self.S(rest, env, k, ind))
+        self.err(s, 'unsupported call on a thread-local list')
+      # pairs.append((a, b)) on a local sequence of pairs
+      if isinstance(f, ast.Attribute) and f.attr == 'append' and isinstance(f.value, ast.Name) and f.value.id in self.pair_lists \
+          and len(c.args) == 1 and isinstance(c.args[0], ast.Tuple) and len(c.args[0].elts) == 2 and not c.keywords:
+        x = f.value.id
+        if x not in env or x in self.params:
+          self.err(s, '.append() on something that is not a local')
+        a, b = c.args[0].elts
+        return '%slet %s := py_append_pair %s %s %s in\n%s' % (pad, self.var(x), self.var(x), self.E(a, env), self.E(b, env), self.S(rest, env, k, ind))
       # a user callback passed as a parameter
       if isinstance(f, ast.Name) and f.id in self.params and f.id not in self.assigned and not c.args and not c.keywords:
         self.notes.append('user callback %s() not modelled' % f.id)
@@ -521,18 +572,19 @@ class Fn:
   def loop(self, s, rest, env, k, ind):
     """for a, b in X.items(): body   ->   fold over the dict with the single loop-carried variable"""
     pad = '  ' * ind
-    ok = (isinstance(s.target, ast.Tuple) and len(s.target.elts) == 2 and all(isinstance(e, ast.Name) for e in s.target.elts)
-          and isinstance(s.iter, ast.Call) and isinstance(s.iter.func, ast.Attribute) and s.iter.func.attr == 'items'
-          and isinstance(s.iter.func.value, ast.Name) and not s.iter.args and not s.orelse)
-    if not ok:
-      self.err(s, 'unsupported for loop (only `for a, b in X.items():`)')
+    tgt = isinstance(s.target, ast.Tuple) and len(s.target.elts) == 2 and all(isinstance(e, ast.Name) for e in s.target.elts) and not s.orelse
+    items = (tgt and isinstance(s.iter, ast.Call) and isinstance(s.iter.func, ast.Attribute) and s.iter.func.attr == 'items'
+             and isinstance(s.iter.func.value, ast.Name) and not s.iter.args)
+    pairs = tgt and isinstance(s.iter, ast.Name) and s.iter.id in self.pair_lists
+    if not (items or pairs):
+      self.err(s, 'unsupported for loop (only `for a, b in X.items():` or over a sequence of pairs)')
     for n in ast.walk(ast.Module(body=list(s.body), type_ignores=[])):
       if isinstance(n, (ast.Break, ast.Continue, ast.Return, ast.Yield, ast.YieldFrom, ast.Raise, ast.For, ast.While, ast.Try, ast.With)):
         self.err(n, 'unsupported control flow inside a for loop')
       if isinstance(n, ast.Call) and (self.prim(n) in PRIMS_WRITE or self.tls_call(n, 'setattr', 3)):
         self.err(n, 'thread-local write inside a for loop')
     kv = [e.id for e in s.target.elts]
-    src = s.iter.func.value.id
+    src = s.iter.func.value.id if items else s.iter.id
     if src not in env or src in kv:
       self.err(s, 'loop source %s' % src)
     assigned = set()
@@ -541,7 +593,7 @@ class Fn:
         assigned.add(n.id)
       if isinstance(n, ast.Subscript) and isinstance(n.ctx, ast.Store) and isinstance(n.value, ast.Name):
         assigned.add(n.value.id)
-      if isinstance(n, ast.Call) and isinstance(n.func, ast.Attribute) and n.func.attr == 'update' and isinstance(n.func.value, ast.Name):
+      if isinstance(n, ast.Call) and isinstance(n.func, ast.Attribute) and n.func.attr in ('update', 'append') and isinstance(n.func.value, ast.Name):
         assigned.add(n.func.value.id)
     carried = sorted(a for a in assigned if a in env and a not in kv)
     if len(carried) != 1:
@@ -580,6 +632,10 @@ class Fn:
         if not ok:
           nonfresh.add(n.targets[0].id)
     self.fresh_copies = {n for n in count if n not in nonfresh}
+    for n in ast.walk(ast.Module(body=list(stmts), type_ignores=[])):
+      if isinstance(n, ast.Assign) and len(n.targets) == 1 and isinstance(n.targets[0], ast.Name) and isinstance(n.value, ast.List) and not n.value.elts \
+          and count.get(n.targets[0].id) == 1:
+        self.pair_lists.add(n.targets[0].id)
     self.assign_count = dict(count)
 
   fresh_fns = ()
@@ -606,7 +662,16 @@ class Fn:
     self.phase, self.touched, self.inlined_locals = 'getter', False, set()
     ret = body[-1]
     env0 = [p for p in self.params if p not in self.key_params]
-    text = self.S(body[:-1], env0, lambda env: '  ' + self.E(ret.value, env), 1)
+    early = None
+    if len(body) >= 2 and isinstance(body[-2], ast.If) and len(body[-2].body) == 1 and isinstance(body[-2].body[0], ast.Return) \
+        and body[-2].body[0].value is not None and not body[-2].orelse:
+      early = body[-2]
+      body = body[:-2] + [ret]
+    def fin(env):
+      if early is not None:
+        return '  (if %s then %s else %s)' % (self.C(early.test, env), self.E(early.body[0].value, env), self.E(ret.value, env))
+      return '  ' + self.E(ret.value, env)
+    text = self.S(body[:-1], env0, fin, 1)
     stores = '(st : store) (gst : store)' if self.use_global else '(st : store)'
     return 'Definition %s %s %s : val :=\n%s.' % (coq_name, self.sig(False), stores, text)
 
@@ -933,16 +998,41 @@ def translate(repo=None):
       not in [ast.dump(s) for s in dinit.body]:
     raise TranslationError('detour: self._tls is no longer a threading.local()')
   keys.add('detour', dconst['_DETOUR_STACK_KEY'], 'k_detour')
-  # the hand-written manager: pinned by fingerprint (locals renamed apart), like the thread_local primitives
+  # class detouring: _DetourContext.current_mappings / enter_scope / leave_scope are translated; the lazily created list behind
+  # `_detour_stack` and the shape of detour() are pinned by fingerprint
+  kdet = keys.ident('detour', dconst['_DETOUR_STACK_KEY'])
+  def det_fn(f):
+    x = Fn(f, dconst, keys, {})
+    x.params = [q for q in x.params if q != 'self']
+    x.tls_list_attrs = {'_detour_stack': kdet}
+    x.property_getters = {'current_mappings': 'current_mappings'}
+    x.ignored_attrs = {'_original_new'}
+    x.pair_lists = {'mappings'}
+    return x
+  defs.append('(* class_detour.py: _DetourContext.current_mappings *)\n' + det_fn(_find_fn(dt, 'current_mappings', '_DetourContext')).getter('current_mappings'))
+  es = _find_fn(dt, 'enter_scope', '_DetourContext')
+  ls = _find_fn(dt, 'leave_scope', '_DetourContext')
+  if [a.arg for a in es.args.args] != ['self', 'mappings'] or [a.arg for a in ls.args.args] != ['self']:
+    raise TranslationError('detour: enter_scope / leave_scope signature')
+  eb = _strip_doc(es.body)
+  if not (eb and isinstance(eb[-1], ast.Return) and isinstance(eb[-1].value, ast.Name)):
+    raise TranslationError('detour: enter_scope does not end in `return <name>`')
+  for n in ast.walk(ls):
+    if isinstance(n, ast.Return):
+      raise TranslationError('detour: leave_scope returns')
+  efn = det_fn(es)
+  text, _ = efn.manager('detour_scope', eb[:-1], _strip_doc(ls.body))
+  defs.append('(* class_detour.py: _DetourContext.enter_scope / leave_scope (called by detour() around the yield) *)\n' + text)
+  info['notes'] = list(info.get('notes', [])) + efn.notes
   dfp = {}
-  for m in ('_detour_stack', 'current_mappings', 'enter_scope', 'leave_scope'):
+  for m in ('_detour_stack',):
     dfp[m] = fingerprint(_find_fn(dt, m, '_DetourContext'))
   dfp['detour'] = fingerprint(_find_fn(dt, 'detour'))
   info['hand_written_fingerprints'] = dfp
   changed = sorted(k for k in dfp if HAND_WRITTEN_FINGERPRINTS.get(k) != dfp[k])
   info['hand_written_changed'] = changed
   if changed:
-    raise TranslationError('class_detour.%s changed (fingerprints %s): Model/Scopes.v detour_enter / detour_exit model them by hand'
+    raise TranslationError('class_detour.%s changed (fingerprints %s): the translation of enter_scope / leave_scope relies on their shape'
                            % ('/'.join(changed), {k: dfp[k] for k in changed}))
   # pg.apply_wrappers is a detour from each wrapped class to its wrapper (Model/Scopes.v gives CApplyWrappers the detour semantics)
   cw = _parse(P('symbolic/class_wrapper.py'))
